@@ -633,6 +633,10 @@ impl G1Projective {
         } else {
             scalars.len()
         };
+        // The empty sum is the identity.
+        if n == 0 {
+            return Self::identity();
+        }
         let points =
             unsafe { std::slice::from_raw_parts(points.as_ptr() as *const blst_p1, points.len()) };
 
